@@ -1541,6 +1541,7 @@ class DocutilsRenderer(RendererProtocol):
         arguments = parts[1] if len(parts) > 1 else ""
 
         if name.startswith("{") and name.endswith("}"):
+            prepended_lines = 0
             if token.content.startswith(":::"):
                 # the content starts with a nested fence block,
                 # but must distinguish between ``:options:``, so we add a new line
@@ -1548,7 +1549,10 @@ class DocutilsRenderer(RendererProtocol):
                 linear_token = token.token.copy()
                 linear_token.content = "\n" + linear_token.content
                 token.token = linear_token
-            return self.render_directive(token, name[1:-1], arguments)
+                prepended_lines = 1
+            return self.render_directive(
+                token, name[1:-1], arguments, prepended_lines=prepended_lines
+            )
 
         container = nodes.container(is_div=True)
         self.add_line_and_source_path(container, token)
@@ -1678,12 +1682,15 @@ class DocutilsRenderer(RendererProtocol):
         arguments: str,
         *,
         additional_options: dict[str, str] | None = None,
+        prepended_lines: int = 0,
     ) -> None:
         """Render special fenced code blocks as directives.
 
         :param token: the token to render
         :param name: the name of the directive
         :param arguments: The remaining text on the same line as the directive name.
+        :param prepended_lines: The number of lines at the start of the token content
+            that are not present in the source text.
         """
         position = token_line(token)
         nodes_list = self.run_directive(
@@ -1692,6 +1699,7 @@ class DocutilsRenderer(RendererProtocol):
             token.content,
             position,
             additional_options=additional_options,
+            prepended_lines=prepended_lines,
         )
         self.current_node += nodes_list
 
@@ -1702,6 +1710,7 @@ class DocutilsRenderer(RendererProtocol):
         content: str,
         position: int,
         additional_options: dict[str, str] | None = None,
+        prepended_lines: int = 0,
     ) -> list[nodes.Element]:
         """Run a directive and return the generated nodes.
 
@@ -1712,6 +1721,9 @@ class DocutilsRenderer(RendererProtocol):
         :param position: The line number of the first line
         :param additional_options: Additional options to add to the directive,
             above those parsed from the content.
+        :param prepended_lines: The number of lines at the start of ``content``
+            that are not present in the source text
+            (they do not count towards the line offset of the body).
 
         """
         self.document.current_line = position
@@ -1784,7 +1796,7 @@ class DocutilsRenderer(RendererProtocol):
                 # the absolute line number of the first line of the directive
                 lineno=position,
                 # the line offset of the first line of the content
-                content_offset=parsed.body_offset,
+                content_offset=parsed.body_offset - prepended_lines,
                 # a string containing the entire directive
                 block_text="\n".join(parsed.body),
                 state=state,
